@@ -608,6 +608,18 @@ bool settle(Ctx &c, const Op &op, ExcKind ex, unsigned allowed) {
         if (op.fault & F_CORRUPT) { c.stats->faults_corrupt_planned++; if (ex != EX_NONE && ex != EX_BAD_ALLOC) c.stats->faults_corrupt_thrown++; }
     }
     c.sig.u8((uint8_t)(0xE0 + ex));
+    if (c.returned_ref) {
+        const char *r = static_cast<const char *>(c.returned_ref); c.returned_ref = nullptr;
+        auto inside = [&](const ObjBase &o, size_t sz) { const char *m = static_cast<const char *>(o.mem); return m && r >= m && r < m + sz; };
+        bool alias = false;
+        for (auto *o : c.b8) alias |= inside(*o, sizeof(ST::char_buffer));
+        for (auto *o : c.bw) alias |= inside(*o, sizeof(ST::wchar_buffer));
+        for (auto *o : c.b16) alias |= inside(*o, sizeof(ST::utf16_buffer));
+        for (auto *o : c.b32) alias |= inside(*o, sizeof(ST::utf32_buffer));
+        for (auto *o : c.strs) alias |= inside(*o, sizeof(ST::string));
+        for (auto *o : c.sss) alias |= inside(*o, sizeof(ST::string_stream));
+        if (alias) set_viol(c, "not_exclusive", "the operation returned a reference to (part of) a live object instead of a value that owns its storage");
+    }
     if (fired && (op.fault & F_CORRUPT)) probe(c, PR_FAULT_EXCEPTION_CTOR);
     each_obj(c, [&](ObjBase &o) { if (o.role != ROLE_NONE && o.survived_throw) { probe(c, PR_THROW_THEN_REUSED); o.survived_throw = false; } });
     if (ex == EX_NONE) {
